@@ -4,6 +4,7 @@ import (
 	"context"
 	"errors"
 	"fmt"
+	"reflect"
 	"strings"
 	"sync"
 	"testing"
@@ -26,6 +27,10 @@ type C04OCase struct {
 	ParkIn string `json:"park_in"` // new | registered
 	// After: valid updates installed after the callback goroutine was released and has drained the queue
 	After int `json:"after,omitempty"`
+	// Short k>0: the queue is NOT overflowed - only 64-k events are queued behind
+	// the parked callback before the ops (k >= len(ops), so the ops fill it up to
+	// at most exactly its capacity): nothing may be dropped
+	Short int `json:"short,omitempty"`
 }
 
 const cbQueueCap = 64
@@ -45,13 +50,16 @@ func genC04O(t *rapid.T) C04OCase {
 		}
 		c.Ops = append(c.Ops, op)
 	}
+	if rapid.IntRange(0, 2).Draw(t, "not_overflowed") == 0 {
+		c.Short = n + rapid.SampledFrom([]int{0, 0, 1, 2, 5, 16}).Draw(t, "short_slack")
+	}
 	return c
 }
 
 // runC04O reports only the failures that bear on prop (the first argument of
 // fail names the properties a failed expectation belongs to).
 func runC04O(prop string, c C04OCase) (verdict vrt.Verdict) {
-	if c.Extra < 0 || c.Extra > 64 || len(c.Ops) == 0 || c.After < 0 || c.After > 8 {
+	if c.Extra < 0 || c.Extra > 64 || len(c.Ops) == 0 || c.After < 0 || c.After > 8 || c.Short < 0 || c.Short > 60 || (c.Short > 0 && c.Short < len(c.Ops)) {
 		return vrt.Discardf("bad case")
 	}
 	var msg string
@@ -78,6 +86,7 @@ func runC04O(prop string, c C04OCase) (verdict vrt.Verdict) {
 		uVerifyMu.Unlock()
 		var mu sync.Mutex
 		parked := false
+		watchErrs := 0
 		var seenNew, seenReg []int // N of the new config of each OnNewConfig / registered-callback call, in call order
 		var pairBad string
 		record := func(which *[]int, o, n *UCfg) {
@@ -104,7 +113,11 @@ func runC04O(prop string, c C04OCase) (verdict vrt.Verdict) {
 					park()
 				}
 			},
-			OnWatchedError: func(context.Context, error, *UCfg, *UCfg) {},
+			OnWatchedError: func(context.Context, error, *UCfg, *UCfg) {
+				mu.Lock()
+				watchErrs++
+				mu.Unlock()
+			},
 		}
 		w := &fake.Watcher{}
 		d, err := params.Config(ctx, &UCfg{N: 0, I: ULabel{Text: "default"}}, w)
@@ -122,7 +135,13 @@ func runC04O(prop string, c C04OCase) (verdict vrt.Verdict) {
 		}
 		pt := w.Type.Type()
 		// overflow the callback queue: one event is held by the parked callback, 64 fit the queue
-		for i := 0; i < 1+cbQueueCap+c.Extra; i++ {
+		fill := 1 + cbQueueCap + c.Extra
+		if c.Short > 0 {
+			fill = 1 + cbQueueCap - c.Short // one event in the parked callback, 64-k in the queue
+		}
+		var installed []int // N of every installed version, in order
+		for i := 0; i < fill; i++ {
+			installed = append(installed, i+1)
 			op := UOp{N: i + 1}
 			if err := w.Args.BlockingReportNewValue(ctx, uLayer(pt, &op)); err != nil {
 				fail("C04,C05,C07,C08", "fill %d: blocking report of a valid value returned %v", i, err)
@@ -190,6 +209,7 @@ func runC04O(prop string, c C04OCase) (verdict vrt.Verdict) {
 					return
 				}
 				installedFull++
+				installed = append(installed, op.N)
 				curView, curSerial = v, serialOf(tok)
 			}
 		}
@@ -205,6 +225,31 @@ func runC04O(prop string, c C04OCase) (verdict vrt.Verdict) {
 			synctest.Wait()
 			if got := d.View().N; got != op.N {
 				fail("C04,C05,C07,C08", "after release, update %d: the view holds N=%d, want %d", i, got, op.N)
+				return
+			}
+			installed = append(installed, op.N)
+		}
+		if c.Short > 0 {
+			// the queue never overflowed: every event is delivered
+			mu.Lock()
+			gotNew, gotReg, gotErrs := append([]int{}, seenNew...), append([]int{}, seenReg...), watchErrs
+			mu.Unlock()
+			wantErrs := 0
+			for i := range c.Ops {
+				if c.Ops[i].SetI || (c.Ops[i].Limit != nil && *c.Ops[i].Limit < 0) {
+					wantErrs++
+				}
+			}
+			if gotErrs != wantErrs {
+				fail("C04", "the callback queue held at most %d of its 64 events (never overflowed), %d updates were rejected, but OnWatchedError was called %d times: every rejected update produces exactly one error callback", cbQueueCap-c.Short+len(c.Ops), wantErrs, gotErrs)
+				return
+			}
+			if !reflect.DeepEqual(gotNew, installed) {
+				fail("C06", "the callback queue never overflowed (at most %d of 64 events queued), yet OnNewConfig saw %d of the %d installed versions (first difference at call %d): no installed version may be skipped while the drop-on-overflow does not trigger", cbQueueCap-c.Short+len(c.Ops), len(gotNew), len(installed), firstDiff(gotNew, installed))
+				return
+			}
+			if c.ParkIn == "registered" && !reflect.DeepEqual(gotReg, installed) {
+				fail("C06", "the callback queue never overflowed, yet the registered callback saw %d of the %d installed versions (first difference at call %d)", len(gotReg), len(installed), firstDiff(gotReg, installed))
 				return
 			}
 		}
@@ -239,11 +284,20 @@ func runC04O(prop string, c C04OCase) (verdict vrt.Verdict) {
 	return vrt.OK(rejectedBlocking >= 1, "park="+c.ParkIn, fmt.Sprintf("rejected-blocking=%d", min(rejectedBlocking, 3)), fmt.Sprintf("installed-while-full=%d", min(installedFull, 3)))
 }
 
+func firstDiff(a, b []int) int {
+	for i := 0; i < len(a) && i < len(b); i++ {
+		if a[i] != b[i] {
+			return i
+		}
+	}
+	return min(len(a), len(b))
+}
+
 func TestC04Overflow(t *testing.T) {
 	curT = t
 	vrt.Check(t, vrt.Prop[C04OCase]{
 		ID: "C04", Name: "overflow",
-		Rule: "the callback goroutine is parked in OnNewConfig or in a registered callback, 1+64+extra valid updates overflow the 64-slot callback queue, then 1..8 valid / invalid / unstackable updates (blocking or not) arrive while it is still full, inside a synctest bubble; " +
+		Rule: "the callback goroutine is parked in OnNewConfig or in a registered callback, 1+64+extra valid updates overflow the 64-slot callback queue (in a third of the cases only 64-k are queued, k >= the number of ops: the queue fills up to at most exactly its capacity and NOTHING may be dropped - every version reaches the callbacks, every rejection reaches OnWatchedError), then 1..8 valid / invalid / unstackable updates (blocking or not) arrive while it is still full, inside a synctest bubble; " +
 			"oracle: every update is still installed or rejected exactly as without overflow - rejected ones leave view and serial unchanged and their blocking report returns the verifier's / stacking error (only the OnWatchedError call may be dropped), valid ones are installed with serial+1 and visible at once; a report that is never answered deadlocks the bubble; " +
 			"non-trivial = at least one rejected blocking report while the queue is full; distinct = distinct case JSON",
 		Assumptions: []string{"the queue capacity is 64 (dials.go); a larger capacity would only make the case a non-overflow one"},
